@@ -130,13 +130,16 @@ structure Choice where
 deriving Repr, Inhabited
 
 /-- strictly increasing key names: what `sort.Strings` over the keys of the `mode` map produces -/
-def sortedPlan : List PlanItem → Bool
+def sortedKeys : List Key → Bool
   | [] => true
   | [_] => true
-  | a :: b :: l => decide (a.1 < b.1) && sortedPlan (b :: l)
+  | a :: b :: l => decide (a < b) && sortedKeys (b :: l)
+def sortedPlan (plan : List PlanItem) : Bool := sortedKeys (plan.map (·.1))
 
 def holdsName (l : Loc) (k : Key) : Bool := l.held.any fun h => h.key == k
-def holdsNameW (l : Loc) (k : Key) : Bool := l.held.any fun h => h.key == k && h.mode == .w
+/-- the thread holds a record named `k`, and every record of that name it holds is write-locked -/
+def holdsNameW (l : Loc) (k : Key) : Bool :=
+  (l.held.any fun h => h.key == k) && (l.held.all fun h => !(h.key == k) || h.mode == .w)
 def holdOf (l : Loc) (r : Rec) : Option Hold := l.held.find? (·.rid == r)
 
 /-- the loop of `lockKeys`: the next key, or the command body -/
